@@ -26,6 +26,123 @@ def case_rows(F, b, variants):
     return rows
 
 
+_SHAPE_MEMO = {}
+
+
+def shapes(variants, depth=2):
+    """Abstract envelopes: a chain of 0..depth Node cases ending in a non-Node case (the subject chain). ('Node', 'Node', 'Elided') is
+    a node whose subject is a node whose subject is an elided element."""
+    inner = [v for v in variants if v != 'Node']
+    out = []
+    for d in range(depth + 1):
+        for v in inner:
+            out.append(('Node',) * d + (v,))
+    return out
+
+
+def shape_eval(F, b, shape, variants, stack=()):
+    """Value of the bool predicate body b(&self) on the abstract envelope `shape`, or None when it is not determined by the subject
+    chain's cases. Interprets: tests of discr(case(x)) and calls g(x) of crate predicates for x in {self, the matched node's subject,
+    subject(self)}; everything else is left unknown."""
+    key = (id(F), b.hash, shape)
+    if key in _SHAPE_MEMO:
+        return _SHAPE_MEMO[key]
+    if (b.hash, shape) in stack or len(stack) > 12:
+        return None
+    tb = TermBuilder(F, b)
+    def target(x):
+        """shape of the envelope denoted by term x (None: unknown / not applicable under this shape)"""
+        x = strip_sites(detry(x))
+        while x[0] == 'call' and call_name(x) in ('clone', 'deref', 'borrow', 'as_ref') and len(x[2]) == 1:
+            x = strip_sites(detry(x[2][0]))
+        if x == P1:
+            return shape
+        if x[0] == 'vfield' and x[2:] == ('Node', 'subject'):
+            c = m_call(x[1], name='case', self_suffix='Envelope')
+            base = target(c[0]) if c is not None else None
+            return base[1:] if base and base[0] == 'Node' and len(base) > 1 else None
+        s = m_call(x, name='subject', self_suffix='Envelope')
+        if s is not None:
+            base = target(s[0])
+            if base is None:
+                return None
+            return base[1:] if base[0] == 'Node' and len(base) > 1 else (base if base[0] != 'Node' else None)
+        return None
+    env = {}
+    def consider(x):
+        if x[0] == 'discr':
+            c = m_call(x[1], name='case', self_suffix='Envelope')
+            if c is not None:
+                sh = target(c[0])
+                if sh is not None:
+                    env[x] = variants.index(sh[0])
+            return
+        if x[0] == 'call' and len(x[2]) == 1:
+            c = callee_of(x)
+            g = F.by_hash.get(c.best_hash) if c is not None else None
+            if g is not None and g.local_ty(0) == 'bool':
+                sh = target(x[2][0])
+                if sh is not None:
+                    v = shape_eval(F, g, sh, variants, stack + ((b.hash, shape),))
+                    if v is not None:
+                        env[x] = v
+    cands = find_terms(b, tb, lambda x: x[0] == 'discr' or (x[0] == 'call' and len(x[2]) == 1))
+    for bi, si, t in ret_defs(tb):
+        for x in walk(t):
+            if isinstance(x, tuple) and x and x[0] == 'call' and len(x[2]) == 1:
+                sx = strip_sites(x)
+                if sx not in cands:
+                    cands.append(sx)
+    for x in cands:
+        consider(x)
+    outs = set()
+    for bi, si, t in ret_values_under(b, tb, env):
+        for a in phi_alts(strip_sites(detry(t))):
+            outs.add(eval_bool(a, env))
+    res = None
+    if len(outs) == 1:
+        v = next(iter(outs))
+        if isinstance(v, bool):
+            res = v
+    _SHAPE_MEMO[key] = res
+    return res
+
+
+def case_env(F, b, tb, vname, variants):
+    """Valuation that fixes the case of self (param 1) to `vname` for body b: the discriminant of case(self) and every call g(self) of a
+    crate bool predicate that is determined by self's case (is_compressed(self), is_obscured(self), ..). Returns (env, number of atoms)."""
+    shape = (vname,) if vname != 'Node' else ('Node', 'Leaf')
+    env = {}
+    for x in find_terms(b, tb, lambda x: x[0] == 'discr' or (x[0] == 'call' and len(x[2]) == 1)):
+        if x[0] == 'discr':
+            c = m_call(x[1], name='case', self_suffix='Envelope')
+            if c is not None and strip_sites(c[0]) == P1:
+                env[x] = variants.index(vname)
+            continue
+        if strip_sites(detry(x[2][0])) != P1:
+            continue
+        c = callee_of(x)
+        g = F.by_hash.get(c.best_hash) if c is not None else None
+        if g is None or g.local_ty(0) != 'bool':
+            continue
+        vals = set()
+        for sh in ([shape] if vname != 'Node' else [('Node', v) for v in variants if v != 'Node']):
+            vals.add(shape_eval(F, g, sh, variants))
+        if len(vals) == 1 and isinstance(next(iter(vals)), bool):
+            env[x] = next(iter(vals))
+    return env, len(env)
+
+
+def shape_table(F, b, variants, want):
+    """Compare b with the expected predicate `want(shape) -> bool` on every abstract envelope; returns list of (shape, got, expected) that differ."""
+    bad = []
+    for sh in shapes(variants):
+        got = shape_eval(F, b, sh, variants)
+        if got is None or got != want(sh):
+            bad.append(('/'.join(sh), got, want(sh)))
+    return bad
+
+
 def check_case_predicates(ctx, inst):
     F = ctx.F
     variants = adt_variants(F, CASE)
@@ -37,13 +154,12 @@ def check_case_predicates(ctx, inst):
         if b is None:
             ctx.lost(inst, 'Envelope::' + name)
             continue
-        rows = case_rows(F, b, variants)
-        want = {x: {('bool', x == v)} for x in variants}
         n += 1
-        if rows == want:
-            ctx.ok(inst, ctx.site(b), '%s is true exactly for the %s case (%d case valuations)' % (name, v, len(variants)), nontrivial=True)
+        bad = shape_table(F, b, variants, lambda sh, v=v: sh[0] == v)
+        if not bad:
+            ctx.ok(inst, ctx.site(b), '%s is true exactly for the %s case (%d abstract envelopes: subject chains up to depth 2)' % (name, v, len(shapes(variants))), nontrivial=True)
         else:
-            ctx.fail(inst, ctx.site(b), '%s does not test exactly the %s case: %s' % (name, v, {k: [fmt(t) for t in o] for k, o in (rows or {}).items() if o != want.get(k)}), key='%s|%s' % (inst, name))
+            ctx.fail(inst, ctx.site(b), '%s does not test exactly the %s case: (envelope, got, expected) %s' % (name, v, bad[:4]), key='%s|%s' % (inst, name))
     for name, v in IS_SUBJECT.items():
         if v not in variants:
             continue
@@ -51,42 +167,20 @@ def check_case_predicates(ctx, inst):
         if b is None:
             ctx.lost(inst, 'Envelope::' + name)
             continue
-        rows = case_rows(F, b, variants)
-        good = rows is not None
-        for x in variants if rows else []:
-            outs = rows[x]
-            if x == v:
-                good &= outs == {('bool', True)}
-            elif x == 'Node':
-                good &= len(outs) == 1 and all(m_call(o, name=name, self_suffix='Envelope') is not None and strip_sites(m_call(o, name=name, self_suffix='Envelope')[0])[0] == 'vfield'
-                                               and strip_sites(m_call(o, name=name, self_suffix='Envelope')[0])[2:] == ('Node', 'subject') for o in outs)
-            else:
-                good &= outs == {('bool', False)}
-        if good:
-            ctx.ok(inst, ctx.site(b), '%s: %s -> true, Node -> %s(subject), others -> false' % (name, v, name))
+        bad = shape_table(F, b, variants, lambda sh, v=v: sh[-1] == v)
+        if not bad:
+            ctx.ok(inst, ctx.site(b), '%s: true exactly when the innermost subject is the %s case (through any chain of node subjects; %d abstract envelopes)' % (name, v, len(shapes(variants))))
         else:
-            ctx.fail(inst, ctx.site(b), '%s table unexpected: %s' % (name, {k: [fmt(t) for t in o] for k, o in (rows or {}).items()}), key='%s|%s' % (inst, name))
+            ctx.fail(inst, ctx.site(b), '%s is not "the innermost subject is %s": (envelope, got, expected) %s' % (name, v, bad[:4]), key='%s|%s' % (inst, name))
     # is_obscured = elided | encrypted | compressed
     b = F.method1('Envelope', 'is_obscured')
     if b is not None:
-        import itertools
-        tb = TermBuilder(F, b)
-        names = [nm for nm in ('is_elided', 'is_encrypted', 'is_compressed') if IS_VARIANT[nm] in variants]
-        atoms = find_terms(b, tb, lambda x: x[0] == 'call' and call_name(x) in names and strip_sites(x[2][0]) == P1)
-        if {call_name(a) for a in atoms} != set(names):
-            ctx.fail(inst, ctx.site(b), 'is_obscured consults %s (expected %s)' % (sorted({call_name(a) for a in atoms}), names), key=inst + '|is_obscured_atoms')
+        OB = {'Elided', 'Encrypted', 'Compressed'}
+        bad = shape_table(F, b, variants, lambda sh: sh[0] in OB)
+        if not bad:
+            ctx.ok(inst, ctx.site(b), 'is_obscured = the element itself is Elided | Encrypted | Compressed (%d abstract envelopes)' % len(shapes(variants)))
         else:
-            bad = []
-            for vals in itertools.product((False, True), repeat=len(atoms)):
-                env = dict(zip(atoms, vals))
-                reach = reach_under(b, tb, env)
-                outs = {eval_bool(t, env) for bi, si, t in ret_defs(tb) if bi in reach}
-                if outs != {any(vals)}:
-                    bad.append((vals, outs))
-            if bad:
-                ctx.fail(inst, ctx.site(b), 'is_obscured is not elided | encrypted | compressed: %s' % bad[:2], key=inst + '|is_obscured_table')
-            else:
-                ctx.ok(inst, ctx.site(b), 'is_obscured = is_elided | is_encrypted | is_compressed')
+            ctx.fail(inst, ctx.site(b), 'is_obscured is not elided | encrypted | compressed of the element itself: (envelope, got, expected) %s' % bad[:4], key=inst + '|is_obscured_table')
     # as_predicate / as_object
     for name, fld in (('as_predicate', 'predicate'), ('as_object', 'object')):
         b = F.method1('Envelope', name)
@@ -127,3 +221,53 @@ def check_case_predicates(ctx, inst):
             ctx.ok(inst, ctx.site(b), 'Envelope::case returns the wrapped EnvelopeCase')
         else:
             ctx.fail(inst, ctx.site(b), 'Envelope::case returns %s' % fmt(rt), key=inst + '|case')
+
+
+def check_constant_registry(ctx, inst, kinds=('Function', 'Parameter', 'KnownValue')):
+    """The well-known constants of a registry are distinct values: within each kind (Function, Parameter, KnownValue) the numeric codes
+    built by `new_with_static_name(code, name)` are pairwise distinct, so are the names, and each `<NAME>_VALUE` / `<NAME>_RAW` integer
+    constant equals the code of `<NAME>`. Two constants with one code are one value to every comparison, parser and registry."""
+    F = ctx.F
+    for kind in kinds:
+        rows = []
+        for path, b in F.consts.items():
+            if not b.local_ty(0).endswith('::' + kind):
+                continue
+            t = strip_sites(TermBuilder(F, b).return_term())
+            a = m_call(t, name='new_with_static_name')
+            if a is None or const_int(a[0]) is None:
+                ctx.fail(inst, ctx.site(b), '%s constant %s is not built by new_with_static_name(<integer>, <name>): %s' % (kind, path.split('::')[-1], fmt(t)[:120]),
+                         key='%s|form|%s' % (inst, path.split('::')[-1]))
+                continue
+            rows.append((path, const_int(a[0]), strip_sites(a[1]), b))
+        if not rows:
+            if kind == 'KnownValue' and not ctx.has('known_value'):
+                continue
+            if kind in ('Function', 'Parameter') and not ctx.has('expression'):
+                continue
+            ctx.lost(inst, '%s constants' % kind)
+            continue
+        bad = False
+        by_code, by_name = {}, {}
+        for path, code, name, b in rows:
+            by_code.setdefault(code, []).append(path.split('::')[-1])
+            by_name.setdefault(name, []).append(path.split('::')[-1])
+            for suffix in ('_VALUE', '_RAW'):
+                vb = F.consts.get(path + suffix)
+                if vb is not None:
+                    v = const_int(strip_sites(TermBuilder(F, vb).return_term()))
+                    if v != code:
+                        bad = True
+                        ctx.fail(inst, ctx.site(vb), '%s%s = %s but %s carries code %s' % (path.split('::')[-1], suffix, v, path.split('::')[-1], code),
+                                 key='%s|value|%s' % (inst, path.split('::')[-1]))
+        for code, names in sorted(by_code.items()):
+            if len(names) > 1:
+                bad = True
+                ctx.fail(inst, ctx.site(rows[0][3]), '%s constants %s share the code %d: they are one and the same value to every comparison and parser' % (kind, sorted(names), code),
+                         key='%s|dupcode|%s|%s' % (inst, kind, '+'.join(sorted(names))))
+        for name, names in sorted(by_name.items(), key=lambda kv: str(kv[0])):
+            if len(names) > 1:
+                bad = True
+                ctx.fail(inst, ctx.site(rows[0][3]), '%s constants %s share the name %s' % (kind, sorted(names), fmt(name)), key='%s|dupname|%s|%s' % (inst, kind, '+'.join(sorted(names))))
+        if not bad:
+            ctx.ok(inst, ctx.site(rows[0][3]), '%d %s constants: codes pairwise distinct, names pairwise distinct, *_VALUE / *_RAW agree' % (len(rows), kind), sample=str(len(rows)))
